@@ -6,6 +6,7 @@ CONSTANTS
   InitSeq <- LInit
   InitTok <- LInitTok
   InitRaw = {}
+  SubOf <- LSub
   HasLF0 = FALSE
   HasAT0 = FALSE
   Slack = 2
